@@ -21,6 +21,7 @@ IMPORTS = ("Require Import Hdl21.Base.PyInt Hdl21.Spec.C12Repro Hdl21.Model.C12O
            "From Coq Require Import String.\nOpen Scope string_scope.")
 
 FORMATS = ("pkg", "spice", "spectre", "verilog")
+PDKS = ["sky130_hdl21", "gf180_hdl21", "asap7_hdl21", "hdl21.pdk.sample_pdk"]
 EXAMPLES = ["ro", "diff_ota", "encoder10", "encoder8", "bundles", "idac", "rladder", "mux_tree", "mos_sim_tb"]
 
 
@@ -442,13 +443,13 @@ def run(run, tier, seed, replay=None):
     evaluate(run, "corpus", jobs, hashseeds, seed, 1, rule="pinned-tree witnesses and hand-written bundle / reference-group / generator designs; all non-trivial")
 
     # ---- bundles
-    n = 60 if quick else 600
+    n = 60 if quick else 400
     jobs = [dict(kind="bd", bd=gen_bd(core.rng(seed, "C12", "bundles", k), tag=f"_{k}")) for k in range(n)]
     evaluate(run, "bundles", jobs, hashseeds, seed, 15 if quick else 50, nontrivial=lambda j: bd_nontrivial(j["bd"]),
              rule="non-trivial = some bundle, bundle reference, anonymous bundle or implicit bundle feeds at least two ports of one instance; distinct by design")
 
     # ---- reference groups
-    n = 40 if quick else 400
+    n = 40 if quick else 300
     jobs = [dict(kind="cyc", cyc=gen_cyc(core.rng(seed, "C12", "groups", k), tag=f"_{k}")) for k in range(n)]
     evaluate(run, "groups", jobs, hashseeds, seed, 20 if quick else 50, nontrivial=lambda j: cyc_nontrivial(j["cyc"]),
              rule="non-trivial = a reference group without unconnected member whose alphabetically first instance has two or more ports in the group; distinct by design")
@@ -462,7 +463,7 @@ def run(run, tier, seed, replay=None):
 
     # ---- the gen_design stream of C01 (same rng labels: the same designs)
     from . import c01
-    n = 300 if quick else 1500
+    n = 300 if quick else 1000
     designs = c01.corpus()
     k = 0
     while len(designs) < n:
@@ -476,8 +477,10 @@ def run(run, tier, seed, replay=None):
 
     # ---- examples
     jobs = [dict(kind="example", name=e) for e in EXAMPLES]
-    obs, bad, _ = evaluate(run, "examples", jobs, hashseeds, seed, len(jobs), rule="the main design of every example script; all non-trivial")
-    broken = [j["name"] for j, o in zip(jobs, obs) if o[0][1]["pkg"].startswith("!")]
+    jobs += [dict(kind="pdk", pdk=p, family=f) for p in PDKS for f in ("CORE", "NONE")]
+    obs, bad, _ = evaluate(run, "examples", jobs, hashseeds, seed, len(jobs),
+                           rule="the main design of every example script, and one transistor-level design compiled to each PDK package (two device families); all non-trivial")
+    broken = [j.get("name") or f"{j['pdk']}:{j['family']}" for j, o in zip(jobs, obs) if o[0][1]["pkg"].startswith("!")]
     if broken:
         run.notes.append(f"examples that do not build/export on this tree (same in every process): {broken}")
     run.sample(dict(stream="corpus", job=corpus()[0]))
